@@ -415,7 +415,23 @@ func (o *runOracle) finish() {
 			o.fail("C05/final/stores-not-completed", "quit with store units not completed: "+w.record())
 		}
 		if w.plan.BuildStores != nil {
-			if _, err := w.sched.FinalStoreMap(w.plan.BuildStores.ExclusiveEndBlock); err != nil {
+			// the snapshots FinalStoreMap is going to load must exist (checked on the files first: loading a missing
+			// one goes through loadStore's retries and back-off, twelve seconds a time)
+			end := w.plan.BuildStores.ExclusiveEndBlock
+			missing := ""
+			for j, ms := range w.stages {
+				if w.kinds[j] != 'S' {
+					continue
+				}
+				for _, m := range ms {
+					if m.Init < end && !w.fullExists(m.Name, end) {
+						missing = m.Name
+					}
+				}
+			}
+			if missing != "" {
+				o.fail("C05/final/stores-not-at-handoff", fmt.Sprintf("quit without the full snapshot of store %s at the hand-off block %d: %s", missing, end, w.record()))
+			} else if _, err := w.sched.FinalStoreMap(end); err != nil {
 				o.fail("C05/final/stores-not-at-handoff", "FinalStoreMap(hand-off): "+err.Error())
 			}
 		}
